@@ -326,7 +326,7 @@ def build(rng, drv, small=False, gadget_ths=None):
 
         def newb():
             return 2 * int(do("bv")["rc"]) + 1
-        rungs, contra = [], None     # rungs: loosest first; contra: a literal contradicting rungs[0]
+        rungs, contra, probe, extra_atoms = [], None, None, []     # rungs: loosest first; contra: a literal contradicting rungs[0]
         if gth == "lra":
             if rng.random() < 0.5 or not exprs:
                 e = [(int(do("lv")["rc"]), 1)]
@@ -370,6 +370,12 @@ def build(rng, drv, small=False, gadget_ths=None):
             else:
                 rungs += [edge(a, b, ds[2]), edge(a, b, ds[3])]
             contra = edge(b, a, -(d0 + 2), exact=True)
+            # probe: an edge b -> q and constraints on (a, q) that it decides THROUGH the cell (a, b): their explanation walks the
+            # predecessors of (a, b)
+            q = tp()
+            w = rng.randint(1, 3)
+            probe = edge(b, q, w, exact=True)
+            extra_atoms = [probe, edge(a, q, d0 + w + 1 + rng.randint(0, 1), exact=True), edge(q, a, -(d0 + w + 2), exact=True)]
         else:
             k = rng.randint(4, 5)
             st = do("ov " + " ".join(map(str, rng.sample(range(6), k))))
@@ -385,7 +391,7 @@ def build(rng, drv, small=False, gadget_ths=None):
             flat += list(r[1:]) if isinstance(r, tuple) else [r]
         if any(l is None or l <= 1 for l in flat) or contra is None or contra <= 1:
             continue
-        for l in flat:
+        for l in flat + [x for x in extra_atoms if x is not None and x > 1]:
             net.atoms.append((gth, l))
         d0l, dl, el, fl, e2l = newb(), newb(), newb(), newb(), newb()
         # d -> two or three rungs above the loosest one, mostly loose before tight (watch order = propagation order)
@@ -402,7 +408,7 @@ def build(rng, drv, small=False, gadget_ths=None):
         gclauses.append("c %d %d" % (el ^ 1, fl))
         gclauses.append("c %d %d %d" % (el ^ 1, fl ^ 1, d0l ^ 1))
         gclauses.append("c %d %d" % (e2l ^ 1, contra))
-        net.gadgets.append(dict(th=gth, d0=d0l, d=dl, e=el, e2=e2l, rungs=flat))
+        net.gadgets.append(dict(th=gth, d0=d0l, d=dl, e=el, e2=e2l, rungs=flat, probe=probe if probe and probe > 1 else None))
         net.ladders.append(flat)
 
     # --- clauses linking everything ---------------------------------------------------------------------------------
@@ -520,6 +526,18 @@ def history(rng, drv, net, target_ops=None, profile=None, unsteered=0.04, max_de
             st = do("a %d" % g["e"])
         elif ending == "tconflict" and und(g["e2"]):
             st = do("a %d" % g["e2"])
+        # probe: with d's level undone and (mostly) d0's level still standing, make the theory EXPLAIN something through the bound /
+        # cell that has just been restored (a conflict with the literal contradicting the loosest rung, or a rung asserted again):
+        # a predecessor / reason / enforcing constraint restored wrongly gives a clause that omits literals (lemma_checks)
+        if ending != "none" and st.get("dead") == "0" and int(st.get("q", 0)) == 0 and st.get("rc") in ("0", "1") and rng.random() < 0.7:
+            if g.get("probe") and und(g["probe"]) and rng.random() < 0.7:
+                st = do("a %d" % g["probe"])
+            elif und(g["e2"]) and rng.random() < 0.7:
+                st = do("a %d" % g["e2"])
+            else:
+                fr = [l for l in g["rungs"][1:] if und(l)]
+                if fr:
+                    st = do("a %d" % rng.choice(fr))
         return st
 
     for gi, ending in first:
